@@ -204,6 +204,9 @@ type Engine struct {
 	Scratch  string
 	Goverter string
 	Repo     string
+	// PostGen, when set, may edit the generated files before the seam rewrite (used by the
+	// sensitivity self-test to plant hidden shared state into emitted code).
+	PostGen func(files []string) error
 }
 
 // NewEngine builds the unmodified goverter from the repo's working tree.
@@ -251,6 +254,11 @@ func (e *Engine) BuildWorld(s *Spec, idx int) (*worldResult, error) {
 	files := generatedFiles(dir, s)
 	if len(files) == 0 {
 		return nil, &vnode.BuildError{Msg: "goverter wrote no files in " + dir}
+	}
+	if e.PostGen != nil {
+		if err := e.PostGen(files); err != nil {
+			return nil, &vnode.BuildError{Msg: err.Error()}
+		}
 	}
 	only := map[string]bool{}
 	for _, f := range files {
@@ -738,4 +746,75 @@ func Digest(seed uint64, repo string) ([]string, error) {
 		}
 	}
 	return out, nil
+}
+
+var localVarRe = regexp.MustCompile(`(?m)^\tvar (\w+) ([^\s=]+)$`)
+
+// SelftestC04Sensitivity plants hidden shared state into emitted code (the first local
+// temporary of a generated function is hoisted to a package-level variable) and demands that
+// the C04 schedule exploration reports it; the unplanted world must stay silent. This is the
+// positive control for the scheduler + D-mode oracle (DESIGN 5.3).
+func SelftestC04Sensitivity(seed uint64, repo string) (string, error) {
+	e, err := NewEngine(repo)
+	if err != nil {
+		return "", err
+	}
+	defer e.Close()
+	planted, caught := 0, 0
+	var report []string
+	for i := 0; planted < 4 && i < 40; i++ {
+		s := NewSpec(worldSeed(seed, "C04", 1000+i), "C04")
+		if s.SkipCopy {
+			continue
+		}
+		did := false
+		e.PostGen = func(files []string) error {
+			for _, f := range files {
+				b, err := os.ReadFile(f)
+				if err != nil {
+					return err
+				}
+				src := string(b)
+				m := localVarRe.FindStringSubmatchIndex(src)
+				if m == nil {
+					continue
+				}
+				name, typ := src[m[2]:m[3]], src[m[4]:m[5]]
+				src = src[:m[0]] + "\t" + name + " = *new(" + typ + ")" + src[m[1]:] + "\nvar " + name + " " + typ + "\n"
+				did = true
+				return os.WriteFile(f, []byte(src), 0o644)
+			}
+			return nil
+		}
+		r, err := e.BuildWorld(s, 5000+i)
+		e.PostGen = nil
+		if err != nil {
+			return "", err
+		}
+		if r.Rejected || !did {
+			_ = os.RemoveAll(r.Dir)
+			continue
+		}
+		planted++
+		if err := e.RunWorld(r, 300, worldSeed(seed, "C04", i), ""); err != nil {
+			return "", err
+		}
+		class, msg := "", ""
+		if r.Failed {
+			class, msg = classify("C04", r.Output)
+			if class != "harness-failure" && class != "panic" {
+				caught++
+			}
+		}
+		report = append(report, fmt.Sprintf("world %d (%s): planted package-level temporary; caught=%v class=%s %s", i, s.Format, r.Failed, class, trim(msg, 200)))
+		_ = os.RemoveAll(r.Dir)
+	}
+	out := strings.Join(report, "\n")
+	if planted == 0 {
+		return out, &vnode.BuildError{Msg: "sensitivity self-test could not plant anything"}
+	}
+	if caught < planted {
+		return out, &vnode.BuildError{Msg: fmt.Sprintf("C04 sensitivity: only %d of %d planted hidden-state mutants were caught\n%s", caught, planted, out)}
+	}
+	return out + fmt.Sprintf("\nc04 sensitivity ok: %d of %d planted hidden-state mutants caught", caught, planted), nil
 }
